@@ -324,7 +324,7 @@ Section Sym.
       dwalk h u root done = Some parent -> (precise_of slm = true -> saved = None) -> slcount <= MAXSYMLINKS ->
       kwalk fk h u root false follow parent todo slcount false = K -> K <> WErr EFUEL ->
       sr_err (search_loop fi h v slm root parent pi slcount saved) <> EFuel ->
-      walk_rel h u root (precise_of slm) (search_loop fi h v slm root parent pi slcount saved) K.
+      walk_relx h u root (precise_of slm) (search_loop fi h v slm root parent pi slcount saved) K.
 
   (* the two walks stand at two positions of the same clean path, one a prefix of the other: the one
      behind catches up *)
@@ -336,7 +336,7 @@ Section Sym.
       (precise_of slm = true -> saved = None) -> slcount <= MAXSYMLINKS ->
       kwalk fk h u root false follow nk tk slcount false = K -> K <> WErr EFUEL ->
       sr_err (search_loop fi h v slm root ni pi' slcount saved) <> EFuel ->
-      walk_rel h u root (precise_of slm) (search_loop fi h v slm root ni pi' slcount saved) K.
+      walk_relx h u root (precise_of slm) (search_loop fi h v slm root ni pi' slcount saved) K.
   Proof.
     intros fi cs' di ti dk tk ni nk pi' slcount saved K Hi Hk Htk Hg Hb Hdi Hdk Hpos Hsv Hsl HK Hk1 Hnf.
     assert (Hok : Forall comp_ok cs') by (apply Forall_comp_ok_of; exact Hg).
@@ -399,7 +399,7 @@ Section Sym.
     destruct (get h n) as [[ch m|dt k i m|t m]|] eqn:Hgn.
     - (* a directory *)
       destruct todo as [|c2 todo]; cbn [is_nil].
-      + intros _ _. cbn. repeat split; eauto; unfold get in *; congruence.
+      + intros _ _. cbn. repeat split; eauto; try (unfold get in *; congruence); intros _ Hk; exfalso; apply Hk; reflexivity.
       + assert (Hpn : kperm h n 1 u = check_permission m OpenLookup u) by (apply (kperm_dir _ _ _ _ u Hgn)).
         assert (Hnd : node_is_dir h n = true) by (unfold node_is_dir; rewrite Hgn; reflexivity).
         destruct (check_permission m OpenLookup u) eqn:Hcp.
@@ -413,7 +413,7 @@ Section Sym.
           split; [|intros _ [=]]. right. split; [auto|reflexivity].
     - (* a file *)
       intros _ _. destruct todo as [|c2 todo]; cbn [is_nil].
-      + cbn. repeat split; eauto; unfold get in *; congruence.
+      + cbn. repeat split; eauto; try (unfold get in *; congruence); intros _ Hk; exfalso; apply Hk; reflexivity.
       + cbn. split; [|intros _ [=]]. right. split; [auto|reflexivity].
     - (* a symbolic link *)
       destruct (Hlc parent c n t m (alookup_in _ _ _ _ Hl) Hgn) as (x & Ht).
@@ -421,7 +421,7 @@ Section Sym.
       destruct (is_nil todo && slmode_eqb slm SlLstat) eqn:Hnofollow.
       { (* final component, lstat mode: the link itself, whatever the count *)
         apply andb_true_iff in Hnofollow as (Hl1 & Hl2). rewrite Hl1, Hl2. cbn [negb orb]. intros _ _.
-        destruct todo; [|discriminate]. cbn. repeat split; eauto; unfold get in *; congruence. }
+        destruct todo; [|discriminate]. cbn. repeat split; eauto; try (unfold get in *; congruence); intros _ Hk; exfalso; apply Hk; reflexivity. }
       assert (Hfol : negb (is_nil todo) || negb (slmode_eqb slm SlLstat) || false = true).
       { destruct (is_nil todo), (slmode_eqb slm SlLstat); cbn in *; congruence. }
       rewrite Hfol.
@@ -458,9 +458,10 @@ Section Sym.
           2:{ apply resumes_longer in Hres. cbn [length] in Hres. lia. }
           destruct fi as [|fi]; [cbn [search_loop sr_err]; congruence|]. intros _.
           rewrite (search_loop_end h v Hos fi slm root root pi2 (S slcount) saved' [] Hok' Hb2).
-          cbn [walk_rel sr_err sr_child sr_parent sr_pi]. split; [reflexivity|]. split; [reflexivity|].
+          cbn [walk_relx sr_err sr_child sr_parent sr_pi]. split; [reflexivity|]. split; [reflexivity|].
           split; [apply node_is_dir_valid; exact Hrd|]. split; [eauto|].
-          split; [intros Hpr; rewrite (Hsv' Hpr); reflexivity|]. intros [=].
+          split; [intros Hpr; rewrite (Hsv' Hpr); reflexivity|]. split; [intros [=]|].
+          intros Hpr _. exists []. split; [constructor|]. split; [reflexivity|]. rewrite (Hsv' Hpr). reflexivity.
         * assert (Hmd : is_nil todo && ktrailing (abs_path lc) = false).
           { destruct todo as [|c2 todo]; [|reflexivity]. cbn [is_nil andb]. rewrite app_nil_r in Ecs.
             apply ktrailing_abs_path; [apply Forall_comp_ok_of; exact Hlcg|rewrite <- Ecs; discriminate]. }
@@ -491,11 +492,12 @@ Section Sym.
           rewrite <- Hm2.
           rewrite <- Ecs in Hp1.
           destruct (search_rewalk_full h v Hos cs' root p [] cs' fi slm root pi2 (S slcount) saved' eq_refl Hok' Hb2 Hp1 Hrp)
-            as (R1 & R2 & R3 & R4).
+            as (R1 & R2 & R3 & R4 & R5).
           cbn. change (S (length cs') + fi) with (S (length cs' + fi)).
           split; [exact R1|]. split; [exact R2|].
           split; [apply node_is_dir_valid; exact (proj1 (dwalk_end_dir _ _ _ _ _ Hp1 Hrd Hrp))|].
-          split; [exact R3|]. split; [intros Hpr; apply R4; [exact (Hsv' Hpr)|reflexivity]|]. intros [=].
+          split; [exact R3|]. split; [intros Hpr; apply R4; [exact (Hsv' Hpr)|reflexivity]|]. split; [intros [=]|].
+          intros Hpr _. exists cs'. split; [exact Hg'|]. split; [exact Hp1|exact (R5 (Hsv' Hpr))].
         * intros Hk1 Hnf.
           assert (Hw' : c0 :: w <> []) by discriminate.
           destruct (kwalk_dotdots h u root Hwf Hrd Hrp k done parent (c0 :: w) fk false follow (S slcount) false Hw' Hw)
@@ -523,10 +525,11 @@ Section Sym.
           pose proof (search_loop_mono (S (length cs')) fi h v slm root root pi2 (S slcount) saved' _ eq_refl Hnf) as Hm2.
           rewrite <- Hm2. rewrite <- Ecs in Hw.
           destruct (search_rewalk_full h v Hos cs' root parent [] cs' fi slm root pi2 (S slcount) saved' eq_refl Hok' Hb2 Hw Hrp)
-            as (R1 & R2 & R3 & R4).
+            as (R1 & R2 & R3 & R4 & R5).
           cbn. change (S (length cs') + fi) with (S (length cs' + fi)).
           split; [exact R1|]. split; [exact R2|]. split; [apply node_is_dir_valid; exact Hd|].
-          split; [exact R3|]. split; [intros Hpr; apply R4; [exact (Hsv' Hpr)|reflexivity]|]. intros [=].
+          split; [exact R3|]. split; [intros Hpr; apply R4; [exact (Hsv' Hpr)|reflexivity]|]. split; [intros [=]|].
+          intros Hpr _. exists cs'. split; [exact Hg'|]. split; [exact Hw|exact (R5 (Hsv' Hpr))].
         * intros Hk1 Hnf.
           pose proof (kwalk_mono_S fk h u root false follow parent (c2 :: todo) (S slcount) false _ eq_refl Hk1) as Hm.
           rewrite <- Hm in Hk1 |- *.
@@ -544,20 +547,21 @@ End Sym.
 (* ---- from the root; at the level of the two entry points ---------------------------------- *)
 Definition follow_of (slm : slmode) : bool := negb (slmode_eqb slm SlLstat).
 
-Theorem sym_bridge (h : heap) (v : view) (slm : slmode) (cs : list str) (fi fk : nat) (md : bool) :
+Theorem sym_bridge_x (h : heap) (v : view) (slm : slmode) (cs : list str) (fi fk : nat) (md : bool) :
   v_os v = Linux -> walk_wf h -> links_clean h -> node_is_dir h (v_root v) = true ->
   Forall good_comp cs -> (md = false \/ cs = []) ->
   let K := kwalk fk h (v_user v) (v_root v) false (follow_of slm) (v_root v) cs 0 md in
   let r := search_loop fi h v slm (v_root v) (v_root v) (pi_new Linux (abs_path cs)) 0 None in
   K <> WErr EFUEL -> sr_err r <> EFuel ->
-  walk_rel h (v_user v) (v_root v) (precise_of slm) r K.
+  walk_relx h (v_user v) (v_root v) (precise_of slm) r K.
 Proof.
   intros Hos Hwf Hlc Hrd Hg Hmd K r. subst K r. destruct cs as [|c cs].
   - destruct fk as [|fk]; [cbn [kwalk]; congruence|]. destruct fi as [|fi]; [cbn [search_loop sr_err]; congruence|].
     intros _ _.
     rewrite (search_loop_end h v Hos fi slm (v_root v) (v_root v) _ 0 None [] (Forall_nil _) (pi_new_before [])).
-    rewrite kwalk_S. cbn [walk_rel sr_err sr_child sr_parent]. split; [reflexivity|]. split; [reflexivity|].
-    split; [apply node_is_dir_valid; exact Hrd|]. split; [eauto|]. split; [reflexivity|]. intros [=].
+    rewrite kwalk_S. cbn [walk_relx sr_err sr_child sr_parent]. split; [reflexivity|]. split; [reflexivity|].
+    split; [apply node_is_dir_valid; exact Hrd|]. split; [eauto|]. split; [reflexivity|]. split; [intros [=]|].
+    intros _ _. exists []. split; [constructor|]. split; reflexivity.
   - destruct Hmd as [->|Hmd]; [|discriminate]. destruct (kperm h (v_root v) 1 (v_user v)) eqn:Hrp.
     + intros Hk1 Hnf.
       apply (sym_bridge_at h v Hos Hwf Hlc Hrd Hrp slm fk fi [] (c :: cs) (v_root v) _ 0 None _); auto.
@@ -573,6 +577,21 @@ Proof.
       split; [|intros _ [=]]. right. split; [auto|reflexivity].
 Qed.
 
+Theorem sym_bridge_lookup_x (s : fsys) (sv : sview) (slm : slmode) (cs : list str) :
+  let v := sv_view sv in
+  let h := f_heap s in
+  v_os v = Linux -> walk_wf h -> links_clean h -> node_is_dir h (v_root v) = true ->
+  Forall good_comp cs ->
+  let K := klookup s sv false (follow_of slm) (abs_path cs) in
+  let r := search_node s v (abs_path cs) slm in
+  K <> WErr EFUEL -> sr_err r <> EFuel ->
+  walk_relx h (v_user v) (v_root v) (precise_of slm) r K.
+Proof.
+  intros v h Hos Hwf Hlc Hrd Hg K r. subst K r.
+  rewrite (search_node_abs_path s v cs slm Hos Hg), (klookup_abs_path s sv false (follow_of slm) cs Hg).
+  apply sym_bridge_x; auto. destruct cs; [right; reflexivity|left; reflexivity].
+Qed.
+
 Theorem sym_bridge_lookup (s : fsys) (sv : sview) (slm : slmode) (cs : list str) :
   let v := sv_view sv in
   let h := f_heap s in
@@ -582,11 +601,7 @@ Theorem sym_bridge_lookup (s : fsys) (sv : sview) (slm : slmode) (cs : list str)
   let r := search_node s v (abs_path cs) slm in
   K <> WErr EFUEL -> sr_err r <> EFuel ->
   walk_rel h (v_user v) (v_root v) (precise_of slm) r K.
-Proof.
-  intros v h Hos Hwf Hlc Hrd Hg K r. subst K r.
-  rewrite (search_node_abs_path s v cs slm Hos Hg), (klookup_abs_path s sv false (follow_of slm) cs Hg).
-  apply sym_bridge; auto. destruct cs; [right; reflexivity|left; reflexivity].
-Qed.
+Proof. intros v h H1 H2 H3 H4 H5 K r H6 H7. apply walk_relx_rel. apply sym_bridge_lookup_x; assumption. Qed.
 
 (* ---- non-vacuity and the budget witness ---------------------------------------------------- *)
 Module WalkSymExamples.
